@@ -371,8 +371,8 @@ func c19RunScenario(sc c19Scn) c19Outcome {
 
 // c19RunRace: the real-parallelism stage. The bubble's goroutines run on all processors; a spin barrier lines the
 // senders up (nobody is durably blocked meanwhile, so the virtual clock stands still), then each sends ONE frame of
-// 0.8 x burst into full buckets: tx senders call Stream.Write on their own stream (even rounds) or hand a ready-made
-// frame to switchboard.send (odd rounds: no encryption between barrier and limiter); rx senders are peer goroutines
+// 0.8 x burst into full buckets: tx senders hand a ready-made frame to switchboard.send (nothing between barrier and
+// limiter) or, every fourth round, call Stream.Write on their own stream; rx senders are peer goroutines
 // that each put one ready-made record on their own connection, so that the limited side's deplex goroutines reach
 // rxWait together. Exactly one frame fits the bucket; the others have to wait their turn. The recorded events go
 // through the same oracle and the same TLC trace specification as every other scenario.
@@ -450,63 +450,99 @@ func c19RunRace(sc c19Scn) c19Outcome {
 		txStreams[i] = st
 	}
 	payload := kit.NewRng(sc.Seed).Bytes(16400)
+	// the racers spin without yielding (that is what lines them up to well under a microsecond), so there must be
+	// fewer of them than processors: the driver and the bubble's other goroutines need one too
+	maxRacers := runtime.GOMAXPROCS(0) - 5
+	if maxRacers < 2 {
+		maxRacers = 2
+	}
+	race := func(r, n int, prepare func(i int) func()) {
+		if n > maxRacers {
+			n = maxRacers
+		}
+		var arrived, armed, tight, gate atomic.Int32
+		var round sync.WaitGroup
+		for i := 0; i < n; i++ {
+			round.Add(1)
+			go func(i int) {
+				defer round.Done()
+				shoot := prepare(i)
+				arrived.Add(1)
+				for armed.Load() == 0 { // politely, until everybody is here
+					runtime.Gosched()
+				}
+				tight.Add(1)
+				for gate.Load() == 0 { // then without yielding, for the few microseconds until the release
+				}
+				shoot()
+			}(i)
+		}
+		for int(arrived.Load()) < n {
+			runtime.Gosched()
+		}
+		// observers that keep asking the user's buckets for their balance (Bucket.Available, the library's metrics call:
+		// it changes nothing a Take would not) while the racers go through: the bucket's lock is then contended, which
+		// stretches the time any sender spends between two calls on the bucket from nanoseconds to microseconds
+		var jamStop atomic.Bool
+		var jam sync.WaitGroup
+		for j := 0; j < 3; j++ {
+			jam.Add(1)
+			go func() {
+				defer jam.Done()
+				for !jamStop.Load() {
+					valve.txtb.Available()
+					valve.rxtb.Available()
+				}
+			}()
+		}
+		defer func() { jamStop.Store(true); jam.Wait() }()
+		armed.Store(1)
+		for int(tight.Load()) < n {
+			runtime.Gosched()
+		}
+		rec.add("round", "", r)
+		gate.Store(1)
+		for w := 0; w < 2000 && !jamStop.Load(); w++ { // the observers stay for the first instants only
+			runtime.Gosched()
+		}
+		jamStop.Store(true)
+		round.Wait()
+	}
 	for r := 0; r < sc.Rounds; r++ {
 		// idle until both buckets are full again: the debt of a round is at most m frames
 		time.Sleep(time.Duration(m)*time.Second + 1500*time.Millisecond)
-		var arrived, gate atomic.Int32
-		var round sync.WaitGroup
-		spin := func() {
-			arrived.Add(1)
-			for gate.Load() == 0 {
-				runtime.Gosched()
+		race(r, m, func(i int) func() {
+			st := txStreams[i]
+			if r%4 == 3 { // the application's way in: Stream.Write (encrypts between barrier and limiter)
+				return func() { st.Write(payload[:txFrame-frameHeaderLength-16]) }
 			}
-		}
+			// a frame of a stream of its own, encrypted before the barrier; what follows is switchboard.send alone
+			sesh := limited[i%len(limited)]
+			buf := make([]byte, 16401)
+			f := &Frame{StreamID: uint32(5000 + i), Seq: uint64(5 + r), Payload: payload[:txFrame-frameHeaderLength-16]}
+			n, err := sesh.obfuscate(f, buf, 0)
+			if err != nil {
+				return func() {}
+			}
+			assigned := new(net.Conn)
+			return func() { sesh.sb.send(buf[:n], assigned) }
+		})
 		nrx := m
 		if nrx > len(peerConns) {
 			nrx = len(peerConns)
 		}
-		for i := 0; i < m; i++ {
-			round.Add(1)
-			go func(i int) {
-				defer round.Done()
-				st := txStreams[i]
-				if r%2 == 0 {
-					spin()
-					st.Write(payload[:txFrame-frameHeaderLength-16])
-					return
-				}
-				// a frame of a stream of its own, encrypted before the barrier; what follows is switchboard.send alone
-				sesh := limited[i%len(limited)]
-				buf := make([]byte, 16401)
-				f := &Frame{StreamID: uint32(5000 + i), Seq: uint64(5 + r/2), Payload: payload[:txFrame-frameHeaderLength-16]}
-				n, err := sesh.obfuscate(f, buf, 0)
-				if err != nil {
-					spin()
-					return
-				}
-				var assigned net.Conn
-				spin()
-				sesh.sb.send(buf[:n], &assigned)
-			}(i)
+		if r%3 != 0 { // the rx race is looser by nature (the deplex goroutines are woken one after the other)
+			continue
 		}
-		for i := 0; i < nrx; i++ {
-			round.Add(1)
-			go func(i int) {
-				defer round.Done()
-				buf := make([]byte, 16401)
-				f := &Frame{StreamID: uint32(7000 + i), Seq: uint64(r), Payload: payload[:rxFrame-frameHeaderLength-16]}
-				n, err := peerOf[i].obfuscate(f, buf, 0)
-				spin()
-				if err == nil {
-					peerConns[i].Write(buf[:n])
-				}
-			}(i)
-		}
-		for int(arrived.Load()) < m+nrx {
-			runtime.Gosched()
-		}
-		gate.Store(1)
-		round.Wait()
+		race(r, nrx, func(i int) func() {
+			buf := make([]byte, 16401)
+			f := &Frame{StreamID: uint32(7000 + i), Seq: uint64(r / 3), Payload: payload[:rxFrame-frameHeaderLength-16]}
+			n, err := peerOf[i].obfuscate(f, buf, 0)
+			if err != nil {
+				return func() {}
+			}
+			return func() { peerConns[i].Write(buf[:n]) }
+		})
 	}
 	time.Sleep(time.Duration(m)*time.Second + 2*time.Second)
 	for _, l := range limited {
@@ -657,6 +693,9 @@ func c19Emit(tw *kit.TraceWriter, sc c19Scn, evs []c19Ev, tx, rx c19DirStats) {
 	}
 	tw.Emit(map[string]any{"ev": "reset", "scn": sc.ID, "tx": par(sc.Tx, tx), "rx": par(sc.Rx, rx)})
 	for _, e := range evs {
+		if e.kind == "round" {
+			continue // marker of the race stage, for the driver's statistics only
+		}
 		m := map[string]any{"ev": e.kind, "dir": e.dir, "t": e.ns / 1e6}
 		if e.kind == "pass" {
 			m["n"] = e.n
@@ -702,13 +741,13 @@ func c19Scenarios(seed int64, thorough bool) []c19Scn {
 		c19Scn{Sessions: 4, Conns: 2, Streams: 1, Link: "tls", Method: EncryptionMethodAES128GCM, Tx: c19Dir{5000, B, 1400}, Rx: c19Dir{2000, I, 100}, DurS: 10},
 		c19Scn{Sessions: 9, Conns: 1, Streams: 1, Link: "tls", Method: EncryptionMethodAES256GCM, Tx: c19Dir{2000, B, 100}, Rx: c19Dir{20000, I, 100}, DurS: 12, Timeout: true},
 		// real parallelism into full buckets
-		c19Scn{Sessions: 4, Conns: 2, Streams: 1, Link: "tls", Method: EncryptionMethodAES256GCM, Tx: c19Dir{20000, "race", 0}, Rx: c19Dir{5000, "race", 0}, Race: 8, Rounds: 100},
-		c19Scn{Sessions: 4, Conns: 4, Streams: 1, Link: "tls", Method: EncryptionMethodChaha20Poly1305, Tx: c19Dir{2000, "race", 0}, Rx: c19Dir{20000, "race", 0}, Race: 16, Rounds: 100},
-		c19Scn{Sessions: 1, Conns: 2, Streams: 1, Link: "tls", Method: EncryptionMethodAES128GCM, Tx: c19Dir{5000, "race", 0}, Rx: c19Dir{2000, "race", 0}, Race: 2, Rounds: 100})
+		c19Scn{Sessions: 4, Conns: 2, Streams: 1, Link: "tls", Method: EncryptionMethodAES256GCM, Tx: c19Dir{20000, "race", 0}, Rx: c19Dir{5000, "race", 0}, Race: 8, Rounds: 150},
+		c19Scn{Sessions: 4, Conns: 4, Streams: 1, Link: "tls", Method: EncryptionMethodChaha20Poly1305, Tx: c19Dir{2000, "race", 0}, Rx: c19Dir{20000, "race", 0}, Race: 6, Rounds: 150},
+		c19Scn{Sessions: 1, Conns: 2, Streams: 1, Link: "tls", Method: EncryptionMethodAES128GCM, Tx: c19Dir{5000, "race", 0}, Rx: c19Dir{2000, "race", 0}, Race: 3, Rounds: 150})
 	if thorough {
 		for i := range base {
 			if base[i].Race > 0 {
-				base[i].Rounds = 400
+				base[i].Rounds = 600
 			}
 		}
 	}
@@ -819,6 +858,28 @@ func TestVerifC19Trace(t *testing.T) {
 			res.Stat("lowrate_relaxed_dirs", 1)
 		}
 		res.Stat("virtual_s", int64(sc.DurS))
+		if sc.Race > 0 { // logged, never deciding: rounds in which more than one frame left at the instant of the release
+			var at int64 = -1
+			cnt := map[string]int{}
+			flush := func() {
+				for d, c := range cnt {
+					if c > 1 {
+						res.Stat("race_rounds_with_several_frames_at_once_"+d, 1)
+					}
+				}
+				cnt = map[string]int{}
+			}
+			for _, e := range out.Evs {
+				if e.kind == "round" {
+					flush()
+					at = e.ns
+					res.Stat("race_rounds", 1)
+				} else if e.kind == "pass" && e.ns == at {
+					cnt[e.dir]++
+				}
+			}
+			flush()
+		}
 		res.Sample(map[string]any{"scenario": sc, "tx": tx, "rx": rx, "app_bytes": out.AppBytes}, 6)
 		// at 2 kB/s a 16 kB frame takes 8 s and the first frame of a stream may queue behind others: an application
 		// that has read nothing yet is slow, not dead; a scenario in which no frame reached the limited side is
